@@ -222,7 +222,15 @@ func (e hostsafe) genTree(r *core.PRNG) []core.DiskFile {
 			files[i].Data, _ = e.damageFile(r, files[i].Data)
 		}
 	}
-	switch r.Intn(18) {
+	switch r.Intn(20) {
+	case 18, 19:
+		// one more file in a package directory that holds nothing but its package clause (a doc.go
+		// without the comment), sorted first or last
+		dir := "main"
+		if len(files) > 0 {
+			dir = path.Dir(core.Pick(r, files).Path)
+		}
+		files = append(files, core.DiskFile{Path: dir + "/" + core.Pick(r, []string{"0doc.go", "zz_doc.go", "doc.go"}), Data: []byte("package " + core.Pick(r, []string{"main", path.Base(dir), path.Base(dir)}) + core.Pick(r, []string{"\n", "", "\n\n// end\n"}))})
 	case 10, 11:
 		// an import path (and a Load argument) with glob syntax that matches an existing directory
 		dir := "main"
